@@ -46,6 +46,23 @@ def run_validate(mutate=None):
             check("C19.options.rejects_only_inconsistent", bad, extra=sym.congruence_axioms())
             return
         check("C19.options.accepts_only_consistent", z3.Not(bad), extra=sym.congruence_axioms())
+        # an options object is validated again by every solve: the decision depends on the values it has NOW, not on an earlier success
+        o.dt_init, o.dt_max = SR(R("dt_init_2")), SR(R("dt_max_2"))
+        tp2 = SC(SR(R("tp2_re")), SR(R("tp2_im")))
+        if not tp_none:
+            o.terminal_psi = tp2
+        o.adaptive_time_step_multiplier = SR(R("mult_2"))
+        o.screening_step_drag, o.screening_step_size, o.screening_tolerance = SR(R("drag_2")), SR(R("alpha_2")), SR(R("tol_2"))
+        bad2 = z3.Or(o.dt_init.e > o.dt_max.e, z3.Not(z3.And(o.adaptive_time_step_multiplier.e > 0, o.adaptive_time_step_multiplier.e < 1)),
+                     z3.Not(z3.And(o.screening_step_drag.e > 0, o.screening_step_drag.e <= 1)), o.screening_step_size.e <= 0, o.screening_tolerance.e <= 0)
+        if not tp_none:
+            bad2 = z3.Or(bad2, tp2.abs2().e > 1)
+        try:
+            o.validate()
+        except Err:
+            check("C19.options.revalidation_rejects_only_inconsistent", bad2, extra=sym.congruence_axioms())
+            return
+        check("C19.options.revalidation_accepts_only_consistent", z3.Not(bad2), extra=sym.congruence_axioms())
     obls, n = explore(body, safety=False)
     return dict(obls=obls, paths=n, sources=[L.info()], consistent=sym.consistent())
 
